@@ -78,7 +78,7 @@ func c12WriteFile(c *rt.CaseResult, env *dbx.Env, tr *conc.Tracer, key, tag stri
 		c.Violate("create-failed class="+string(seqrun.Class(err)), err.Error(), replay)
 		return false
 	}
-	var all []byte
+	var all, chunk []byte
 	var werr error
 	for i, n := range seq {
 		b := seqrun.Content(fmt.Sprintf("%s-%d", tag, i), n)
@@ -92,7 +92,22 @@ func c12WriteFile(c *rt.CaseResult, env *dbx.Env, tr *conc.Tracer, key, tag stri
 		if i == len(seq)-1 && strings.HasSuffix(label, "+settled-before-last-write") {
 			time.Sleep(15 * time.Millisecond) // the storing side's verdict is there before this Write
 		}
-		_, werr = f.Write(b)
+		// half of the files are written from one chunk buffer that is scribbled over as soon as
+		// Write has returned (Write must not retain its argument)
+		p := b
+		if len(tag)%2 == 0 {
+			if cap(chunk) < len(b) {
+				chunk = make([]byte, len(b))
+			}
+			p = chunk[:len(b)]
+			copy(p, b)
+		}
+		_, werr = f.Write(p)
+		if len(tag)%2 == 0 {
+			for j := range p {
+				p[j] = '#'
+			}
+		}
 		if werr != nil {
 			break
 		}
